@@ -72,34 +72,34 @@ func vf19Settings() []vf19Setting {
 
 // extra (flag, env, yaml) names for settings only used as companions
 var vf19Companions = map[string][2]string{
-	"tls_key_file":         {"BAZEL_REMOTE_TLS_KEY_FILE", "tls_key_file"},
-	"tls_cert_file":        {"BAZEL_REMOTE_TLS_CERT_FILE", "tls_cert_file"},
-	"htpasswd_file":        {"BAZEL_REMOTE_HTPASSWD_FILE", "htpasswd_file"},
-	"s3.endpoint":          {"BAZEL_REMOTE_S3_ENDPOINT", "s3_proxy.endpoint"},
-	"s3.auth_method":       {"BAZEL_REMOTE_S3_AUTH_METHOD", "s3_proxy.auth_method"},
-	"s3.access_key_id":     {"BAZEL_REMOTE_S3_ACCESS_KEY_ID", "s3_proxy.access_key_id"},
-	"s3.secret_access_key": {"BAZEL_REMOTE_S3_SECRET_ACCESS_KEY", "s3_proxy.secret_access_key"},
-	"s3.aws_profile":        {"BAZEL_REMOTE_S3_AWS_PROFILE", "s3_proxy.aws_profile"},
-	"s3.bucket_lookup_type": {"BAZEL_REMOTE_S3_BUCKET_LOOKUP_TYPE", "s3_proxy.bucket_lookup_type"},
-	"dir":                  {"BAZEL_REMOTE_DIR", "dir"},
-	"max_size":             {"BAZEL_REMOTE_MAX_SIZE", "max_size"},
-	"http_address":         {"BAZEL_REMOTE_HTTP_ADDRESS", "http_address"},
-	"grpc_address":         {"BAZEL_REMOTE_GRPC_ADDRESS", "grpc_address"},
-	"max_size_hard_limit":  {"BAZEL_REMOTE_MAX_SIZE_HARD_LIMIT", "max_size_hard_limit"},
-	"host":                 {"BAZEL_REMOTE_HOST", "host"},
-	"port":                 {"BAZEL_REMOTE_PORT", "port"},
-	"grpc_port":            {"BAZEL_REMOTE_GRPC_PORT", "grpc_port"},
-	"profile_host":         {"BAZEL_REMOTE_PROFILE_HOST", "profile_host"},
-	"profile_port":         {"BAZEL_REMOTE_PROFILE_PORT", "profile_port"},
-	"storage_mode":         {"BAZEL_REMOTE_STORAGE_MODE", "storage_mode"},
-	"zstd_implementation":  {"BAZEL_REMOTE_ZSTD_IMPLEMENTATION", "zstd_implementation"},
-	"tls_ca_file":          {"BAZEL_REMOTE_TLS_CA_FILE", "tls_ca_file"},
-	"allow_unauthenticated_reads": {"BAZEL_REMOTE_UNAUTHENTICATED_READS", "allow_unauthenticated_reads"},
-	"max_blob_size":        {"BAZEL_REMOTE_MAX_BLOB_SIZE", "max_blob_size"},
-	"max_proxy_blob_size":  {"BAZEL_REMOTE_MAX_PROXY_BLOB_SIZE", "max_proxy_blob_size"},
-	"http_proxy.url":       {"BAZEL_REMOTE_HTTP_PROXY_URL", "http_proxy.url"},
-	"grpc_proxy.url":       {"BAZEL_REMOTE_GRPC_PROXY_URL", "grpc_proxy.url"},
-	"gcs_proxy.bucket":     {"BAZEL_REMOTE_GCS_BUCKET", "gcs_proxy.bucket"},
+	"tls_key_file":                  {"BAZEL_REMOTE_TLS_KEY_FILE", "tls_key_file"},
+	"tls_cert_file":                 {"BAZEL_REMOTE_TLS_CERT_FILE", "tls_cert_file"},
+	"htpasswd_file":                 {"BAZEL_REMOTE_HTPASSWD_FILE", "htpasswd_file"},
+	"s3.endpoint":                   {"BAZEL_REMOTE_S3_ENDPOINT", "s3_proxy.endpoint"},
+	"s3.auth_method":                {"BAZEL_REMOTE_S3_AUTH_METHOD", "s3_proxy.auth_method"},
+	"s3.access_key_id":              {"BAZEL_REMOTE_S3_ACCESS_KEY_ID", "s3_proxy.access_key_id"},
+	"s3.secret_access_key":          {"BAZEL_REMOTE_S3_SECRET_ACCESS_KEY", "s3_proxy.secret_access_key"},
+	"s3.aws_profile":                {"BAZEL_REMOTE_S3_AWS_PROFILE", "s3_proxy.aws_profile"},
+	"s3.bucket_lookup_type":         {"BAZEL_REMOTE_S3_BUCKET_LOOKUP_TYPE", "s3_proxy.bucket_lookup_type"},
+	"dir":                           {"BAZEL_REMOTE_DIR", "dir"},
+	"max_size":                      {"BAZEL_REMOTE_MAX_SIZE", "max_size"},
+	"http_address":                  {"BAZEL_REMOTE_HTTP_ADDRESS", "http_address"},
+	"grpc_address":                  {"BAZEL_REMOTE_GRPC_ADDRESS", "grpc_address"},
+	"max_size_hard_limit":           {"BAZEL_REMOTE_MAX_SIZE_HARD_LIMIT", "max_size_hard_limit"},
+	"host":                          {"BAZEL_REMOTE_HOST", "host"},
+	"port":                          {"BAZEL_REMOTE_PORT", "port"},
+	"grpc_port":                     {"BAZEL_REMOTE_GRPC_PORT", "grpc_port"},
+	"profile_host":                  {"BAZEL_REMOTE_PROFILE_HOST", "profile_host"},
+	"profile_port":                  {"BAZEL_REMOTE_PROFILE_PORT", "profile_port"},
+	"storage_mode":                  {"BAZEL_REMOTE_STORAGE_MODE", "storage_mode"},
+	"zstd_implementation":           {"BAZEL_REMOTE_ZSTD_IMPLEMENTATION", "zstd_implementation"},
+	"tls_ca_file":                   {"BAZEL_REMOTE_TLS_CA_FILE", "tls_ca_file"},
+	"allow_unauthenticated_reads":   {"BAZEL_REMOTE_UNAUTHENTICATED_READS", "allow_unauthenticated_reads"},
+	"max_blob_size":                 {"BAZEL_REMOTE_MAX_BLOB_SIZE", "max_blob_size"},
+	"max_proxy_blob_size":           {"BAZEL_REMOTE_MAX_PROXY_BLOB_SIZE", "max_proxy_blob_size"},
+	"http_proxy.url":                {"BAZEL_REMOTE_HTTP_PROXY_URL", "http_proxy.url"},
+	"grpc_proxy.url":                {"BAZEL_REMOTE_GRPC_PROXY_URL", "grpc_proxy.url"},
+	"gcs_proxy.bucket":              {"BAZEL_REMOTE_GCS_BUCKET", "gcs_proxy.bucket"},
 	"experimental_remote_asset_api": {"BAZEL_REMOTE_EXPERIMENTAL_REMOTE_ASSET_API", "experimental_remote_asset_api"},
 }
 
